@@ -353,6 +353,7 @@ func dispatch(input io.Reader, logPath string, workerArgs []string, nworkers, ba
 			}
 		}
 	}
+	fatalDeaths, firstFatal, firstFatalCase := 0, "", ""
 	batches := make(chan [][]byte, nworkers*2)
 	var wg sync.WaitGroup
 	for i := 0; i < nworkers; i++ {
@@ -379,7 +380,32 @@ func dispatch(input io.Reader, logPath string, workerArgs []string, nworkers, ba
 				// the batch killed or hung the worker: find the culprit(s) one case at a time
 				p.kill()
 				race := runtimeRace(p.errs.String())
+				stderrHead := p.errs.String()
 				p = nil
+				mu.Lock()
+				sum.Counters["worker-batches-failed"]++
+				if strings.Contains(stderrHead, "fatal error:") || strings.Contains(stderrHead, "unexpected signal") || strings.Contains(stderrHead, "runaway allocation") {
+					// the Go runtime (or the heap watchdog) ended the process inside a library call: remembered, and a verdict
+					// when it happens to several different batches even if no single case or sequence reproduces it
+					fatalDeaths++
+					if firstFatal == "" {
+						firstFatal = stderrHead
+						if len(firstFatal) > 1800 {
+							firstFatal = firstFatal[:1800]
+						}
+						in, _ := decodeLine(b[len(b)-1])
+						firstFatalCase = string(in)
+					}
+				}
+				tooMany := sum.Counters["worker-batches-failed"] > 8
+				if tooMany {
+					sum.Counters["cases-skipped-after-repeated-worker-failures"] += len(b)
+					sum.Cases += len(b)
+				}
+				mu.Unlock()
+				if tooMany {
+					continue // triage of every failing batch would take hours; what was seen so far is reported
+				}
 				mu.Lock()
 				if race != "" && crashProp == "C06" {
 					sum.Crashes++
@@ -507,6 +533,20 @@ func dispatch(input io.Reader, logPath string, workerArgs []string, nworkers, ba
 	}
 	close(batches)
 	wg.Wait()
+	if fatalDeaths >= 3 && sum.Crashes == 0 {
+		// workers were killed by the Go runtime inside library calls in several independent batches, yet neither a case
+		// nor a sequence fails again in a fresh process: memory damaged by earlier calls of the same process
+		sum.Crashes++
+		sum.Viol = append(sum.Viol, violation{Prop: crashProp, Kind: "process-death-repeated", Text: fmt.Sprintf("(%d batches of cases, each in its own worker process)", fatalDeaths), Detail: "the Go runtime ended the worker inside a library call in " + fmt.Sprint(fatalDeaths) + " different batches (not reproducible one case or one batch at a time); first report: " + firstFatal, Sig: "crash-repeated", Case: firstFatalCase})
+		sum.Counters["violations:"+crashProp+":process-death-repeated"]++
+		kept := sum.Infra[:0]
+		for _, m := range sum.Infra {
+			if !strings.HasPrefix(m, "worker failure not reproduced") {
+				kept = append(kept, m)
+			}
+		}
+		sum.Infra = kept
+	}
 	sum.Distinct = len(distinct)
 	sort.Slice(sum.Viol, func(i, j int) bool {
 		if sum.Viol[i].Prop != sum.Viol[j].Prop {
